@@ -501,6 +501,8 @@ impl ClusterHandler for NocHandler {
 
         let buf = response.writer().available_space();
 
+        let mut persist = FabricPersist::new(ctx.kv());
+
         let status = NodeOperationalCertStatusEnum::map(GenCommHandler::with_armed_failsafe(
             &ctx,
             |state, mut notify_mdns| {
@@ -525,6 +527,42 @@ impl ClusterHandler for NocHandler {
                 // hold the state lock; we'll emit the event once we're sure
                 // the fabric stays committed (i.e. no rollback happened).
                 let captured_admin_entry = fabric.acl_iter().next().cloned();
+
+                // `add_noc` re-associated the fail-safe context with the new fabric. If the
+                // command came over the CASE session of an existing fabric (the one that armed
+                // the fail-safe), the changes made to that fabric earlier in this fail-safe
+                // context (ACL, groups, ...) were kept in memory only, because the fail-safe was
+                // armed for it. From here on neither the rollback (which reloads only the
+                // context's fabric) nor `CommissioningComplete` (which persists only the
+                // context's fabric) covers them, so they would silently vanish with the next
+                // restart. Persist the arming fabric now - its further changes are persisted
+                // immediately anyway, as the fail-safe is no longer armed for it.
+                if let SessionMode::Case {
+                    fab_idx: arming_fab_idx,
+                    ..
+                } = sess.get_session_mode()
+                {
+                    let arming_fab_idx = *arming_fab_idx;
+
+                    let stored = state
+                        .fabrics
+                        .fabric(arming_fab_idx)
+                        .and_then(|arming_fabric| persist.store(arming_fabric));
+
+                    if let Err(e) = stored {
+                        warn!("Removing fabric {} due to failure", fab_idx.get());
+
+                        unwrap!(state.fabrics.remove(fab_idx));
+                        state.failsafe.revert_add_noc(arming_fab_idx);
+
+                        notify_mdns();
+
+                        rolled_back_fab_idx.set(Some(fab_idx));
+
+                        return Err(e);
+                    }
+                }
+
                 let succeeded = Cell::new(false);
 
                 let _fab_guard = scopeguard::guard(fab_idx, |fab_idx| {
@@ -561,6 +599,8 @@ impl ClusterHandler for NocHandler {
         }
 
         let status = status?;
+
+        persist.run()?;
 
         // AddNOC mutates NOCs, Fabrics, CommissionedFabrics, TrustedRootCerts, etc.
         ctx.notify_own_cluster_changed();
